@@ -14,6 +14,8 @@ func main() {
 	switch os.Args[1] {
 	case "check":
 		os.Exit(cmdCheck(os.Args[2:]))
+	case "recipes":
+		os.Exit(cmdRecipes(os.Args[2:]))
 	case "list":
 		os.Exit(cmdList(os.Args[2:]))
 	case "ssadump":
